@@ -802,11 +802,22 @@ def faults_at(site, hist):
     return out
 
 
-def fault_model_lines(hist, at, fault):
-    """model lines for a faulted run, or None when the model does not carry this fault"""
-    kind = MODEL_FAULT.get((fault[0], fault[1]))
-    if kind is None or fault[2] != 1:
+def fault_model_lines(hist, at, fault, where=None):
+    """model lines for a faulted run, or None when the model does not carry this fault.
+    `where` is the part of buffers.py in which the injected exception was raised:
+    a failing write inside _create_buffer's buf.append(self.strbuf) is FCreateWrite,
+    inside OverflowableBuffer.append's buf.append(s) FAppendWrite (each is the only
+    write made there), the first write of the copy loop FCopyWrite."""
+    if fault[1] == "write" and where == "create_append":
+        kind = "createwrite"
+    elif fault[1] == "write" and where == "append":
+        kind = "appendwrite"
+    elif fault[1] == "write" and where not in (None, "copy"):
         return None
+    else:
+        kind = MODEL_FAULT.get((fault[0], fault[1]))
+        if kind is None or fault[2] != 1:
+            return None
     limit, ovf, ops = hist
     lines = ["new %d %d" % (limit, ovf)]
     for i, op in enumerate(ops):
